@@ -804,7 +804,7 @@ def run(ctx):
     items = [(ctx.dir, ctx.tier, it, rnd.randrange(1 << 60)) for it in plan(ctx, rnd)]
     items.sort(key=lambda a: -a[2][2])
     nw = max(1, min(int(os.environ.get("VERIF_PY_JOBS", "8")), len(items)))
-    with ProcessPoolExecutor(max_workers=nw, mp_context=multiprocessing.get_context("spawn")) as ex:
+    with ProcessPoolExecutor(max_workers=nw, mp_context=multiprocessing.get_context("spawn"), max_tasks_per_child=3) as ex:
         results = list(ex.map(_worker, items))
     results.sort(key=lambda r: r["item"][0])
     cases, records = [], []
